@@ -144,7 +144,9 @@ RULE = ("cases = operation x operands: integers from word-count classes {0,1,2,3
         "Fibonacci-like operands, bases that are a Word in one build and a DoubleWord in the other, powers of the base +-1); division by a "
         "prepared ConstDivisor whose top word has / has no leading zeros and residue rings with shift 0 whose operand lengths add up to the "
         "modulus length (release-only code paths); float mul / add / sub / sqrt and base-2 -> f64/f32 with exponents at the ends of the isize "
-        "range; the build's cfg values against the regenerated architecture chain. Every case "
+        "range; short histories with state (Clone::clone_from of IBig / FBig / RBig into destinations of every sign and size class, "
+        "65..128-bit values that are inline with 64-bit words and heap-stored with 32-bit words, lengths inside and outside the buffer-reuse "
+        "window, then text and JSON); the build's cfg values against the regenerated architecture chain. Every case "
         "runs in all five builds; non-trivial = the oracle evaluated a specification on a non-degenerate input; distinct = distinct case texts.")
 EXPLANATION = ("Theorems in coq/props/C19.v (Serde/WireProofs, WordSizeKernels, WordSizeKernels2, WordRuns, WordRuns2, EstimatorIndependence, JsonProofs, "
                "JsonTokenProofs, SerdeGlueProofs, FloatBuilds, ExpRangeProofs, ArchProofs). The oracle (oracle/driver_c19.ml) judges each build's answers against the extracted specifications; every `ok` "
@@ -668,6 +670,26 @@ def gen_fx(rng, tier):
     return "fx %s %s %s %x %s %s %s %s" % (op, bt, mode, p, hx(s1), hx(e1), hx(s2), hx(e2))
 
 
+def gen_hist(rng, tier):
+    """a short history with state: a destination of every sign / size class receives values through clone_from; sizes around the
+    inline / heap boundary of BOTH word sizes (a value of 65..128 bits is inline with 64-bit words and heap-stored with 32-bit
+    words) and lengths inside / outside the buffer-reuse window (src_len <= capacity <= src_len + src_len / 4 + 4 words)"""
+    def val():
+        nb = rng.choice([0, 1, 20, 63, 64, 65, 70, 90, 96, 97, 100, 127, 128, 129, 130, 160, 192, 193, 250, 256, 257, 300, 400, 640, 2000])
+        v = (rng.bits(nb) | (1 << (nb - 1))) if nb else 0
+        return v * rng.choice([1, -1, -1])
+    vs = [val()]
+    for _ in range(rng.choice([1, 1, 2, 3, 4])):
+        if rng.chance(1, 2) and vs[-1]:
+            # about the same length as the destination: the buffer is reused
+            nb = max(1, abs(vs[-1]).bit_length() + rng.choice([0, 0, -1, 1, -10, 10, -32, 32, -64]))
+            v = (rng.bits(nb) | (1 << (nb - 1))) * rng.choice([1, -1, -1])
+        else:
+            v = val()
+        vs.append(v)
+    return "hist " + " ".join(hx(v) for v in vs)
+
+
 def gen_json4(rng, tier):
     ty = rng.choice(["ubig", "ibig", "rbig", "relaxed", "fbig"])
     if rng.chance(1, 3):
@@ -690,8 +712,10 @@ def gen_json4(rng, tier):
 def gen_cases(rng, tier, n):
     out = ["config", "mulparams"]
     while len(out) < n:
-        k = rng.below(127)
-        if k >= 124:
+        k = rng.below(130)
+        if k >= 127:
+            out.append(gen_hist(rng, tier))
+        elif k >= 124:
             out.append(gen_fx(rng, tier))
         elif k >= 118:
             out.append(gen_json4(rng, tier))
